@@ -20,8 +20,8 @@ RULE = ("exhaustive products of finite menus of free encoding choices x small ab
         "2|11, thorough also 7680 x 3). Special families: every o5m file tail of 1..12 | 1..40 bytes after the type byte of the last data "
         "set x 4 prefixes x 4 kinds of last data set x end marker; o5m string-table references 1 / 2 / mid / oldest-1 / oldest after 1..45005 "
         "stored strings (tag pairs, user pairs, roles; before and after wrap-around of the 15000 entries); strings of 246..256 | 200..300 "
-        "characters around the 250-character table limit; all 7! (thorough: also 8! and 9!) attribute/field orders of a node in XML and "
-        "OPL; PBF blobs whose content ends 1..13 bytes (quick: 1, 5, 6, 11), 4 KiB and 16 MiB below the 32 MiB limit (raw, raw+size, zlib, lz4); the smallest valid files of each format; 8 data "
+        "characters around the 250-character table limit; all 7! (thorough: also 8!, OPL also 9!) attribute/field orders of a node in XML "
+        "and OPL; PBF blobs whose content ends 1..13 bytes (quick: 1, 5, 6, 11), 4 KiB and 16 MiB below the 32 MiB limit (raw, raw+size, zlib, lz4); the smallest valid files of each format; 8 data "
         "sets x 3 encoding profiles read through all four readers (reader against reader). evaluations = files read (each twice); "
         "distinct_nontrivial = files with at least one non-default encoding choice that denote >= 1 object and were decoded exactly "
         "(distinct by construction: rows of one source are de-duplicated by case spec, a row inside a full product is left to it). Failing "
@@ -30,7 +30,7 @@ RULE = ("exhaustive products of finite menus of free encoding choices x small ab
         "outside what the format descriptions promise or the library documents) are counted by outcome under tri/..., never alarmed.")
 DEADLINE = {"quick": 200, "thorough": 1100}
 # part, shards, weight of the part in the time budget (quick, thorough); time a part does not use goes to the following ones
-PARTS = [("tiny", 1, (1, 1)), ("agree", 2, (1, 1)), ("o5m", 16, (6, 3)), ("xml", 16, (6, 20)), ("opl", 16, (6, 18)), ("pbf", 16, (6, 36))]
+PARTS = [("tiny", 1, (1, 1)), ("agree", 2, (1, 1)), ("o5m", 16, (6, 3)), ("xml", 16, (6, 10)), ("opl", 16, (6, 12)), ("pbf", 16, (6, 40))]
 
 
 def build(ctx):
